@@ -448,7 +448,10 @@ fn main() {
         for _ in 0..20 {
             let x = gen_input(rng, &recorded, 400);
             check_compress(ctx, &t, &x, Some(rng));
-            let c = h.compress_into_vec(&x);
+            let c = match catch(|| h.compress_into_vec(&x)) {
+                Ok(c) => c,
+                Err(_) => continue, // reported by check_compress above
+            };
             let mut c2 = c.clone();
             if rng.bool() && !c2.is_empty() {
                 let cut = rng.usize_below(c2.len());
